@@ -366,6 +366,7 @@ func (db *DB) Close() error {
 		db.cancelBgWorker()
 	}
 	db.closeWg.Wait()
+	verifYield("close.waited")
 	db.mu.Lock()
 	defer db.mu.Unlock()
 	if err := db.writeMeta(); err != nil {
